@@ -14,8 +14,7 @@ Definition scope_of (d : fdesc) : scope0 := mkScope0 (header_of d) (body_of d).
 Definition wfd (ts : list token) (d : fdesc) : Prop :=
   (fd_start d <= fd_name d < fd_hend d) /\ (fd_hend d <= fd_open d) /\
   matched ts (fd_open d) (fd_close d) /\ (fd_close d < length ts) /\
-  (forall k, (fd_hend d <= k < fd_open d) -> sym_at ts k lbrace = false /\ sym_at ts k rbrace = false) /\
-  sym_at ts (S (fd_close d)) lbrace = false.
+  (forall k, (fd_hend d <= k < fd_open d) -> sym_at ts k lbrace = false /\ sym_at ts k rbrace = false).
 
 (* d1 comes before d2 in source order; d2 is nested in d1 or lies after it *)
 Definition d_before (d1 d2 : fdesc) : Prop :=
@@ -122,7 +121,7 @@ Qed.
 Lemma block_not_in_gap ts d b : wfd ts d ->
   (exists i j, b = (i, S j) /\ matched ts i j) -> fd_hend d <= fst b -> fd_open d <= fst b.
 Proof.
-  intros (_ & _ & _ & _ & Hgap & _) (i & j & -> & M) H. cbn [fst] in *.
+  intros (_ & _ & _ & _ & Hgap) (i & j & -> & M) H. cbn [fst] in *.
   destruct (Nat.le_gt_cases (fd_open d) i) as [Hc|Hc]; [exact Hc|].
   destruct (Hgap i (conj H Hc)) as [E _]. apply matched_syms in M. destruct M as (_ & _ & M & _).
   congruence.
@@ -182,15 +181,14 @@ Proof.
   unfold selp in Hs. apply andb_true_iff in Hs. destruct Hs as [H1 H2]. apply Nat.leb_le in H1.
   pose proof (block_not_in_gap ts d b Hw Hb H1) as Hge.
   destruct Hb as (i & j & -> & M). cbn [fst snd] in *. split; [exact Hge|].
-  destruct Hw as (_ & _ & Md & _ & _ & Hnext).
+  destruct Hw as (_ & _ & Md & _ & _).
   destruct (Nat.eq_dec i (fd_open d)) as [E|E].
   - subst i. rewrite (matched_fun _ _ _ _ M Md). lia.
   - destruct (matched_laminar _ _ _ _ _ Md M) as [C|C]; [lia | | lia].
     exfalso. unfold r_overlaps, body_of in H2. cbn [fst snd] in H2.
     pose proof (matched_syms _ _ _ M) as (Mij & _ & Mi & _).
     apply orb_true_iff in H2. destruct H2 as [H2|H2]; apply andb_true_iff in H2; destruct H2 as [A B];
-      apply Nat.leb_le in A, B; [|lia].
-    assert (i = S (fd_close d)) by lia. subst i. congruence.
+      apply Nat.leb_le in A, B; lia.
 Qed.
 
 Lemma selp_earlier ts d' d : wfd ts d' -> wfd ts d -> d_before d' d -> selp d (body_of d') = false.
